@@ -114,6 +114,11 @@ def handler : Handler := fun op j =>
     let x ← getCV? (← field? j "x") n
     let f ← getFn? n (← field? j "f")
     some (ok (jObj [("eval", jF (f.eval x)), ("jax", jCV (f.jaxGrad x)), ("grad", jCV (f.grad x))]))
+  | "huber_safe" => do
+    let n ← fNat? j "n"
+    let x ← getCV? (← field? j "x") n
+    let δ ← fFloat? j "delta"
+    some (ok (jCV (scicoGrad (huberNonsepSafeJaxGrad δ x))))
   | "div_ok" => do
     let n ← fNat? j "n"
     let f ← getFn? n (← field? j "f")
